@@ -29,6 +29,9 @@ class InstanceReport:
         self.unconfirmed_paths = 0
         self.notes = []
         self.errors = []
+        self.soft_deadline = None     # wall-clock instant after which no new path is started (set by the driver)
+        self.flush = None             # callable sending a partial result to the driver
+        self._last_flush = time.time()
 
     # ---- exploration wrapper
     def explore(self, fn, max_paths=300, timeout_ms=20000):
@@ -45,6 +48,17 @@ class InstanceReport:
             else:
                 self.unconfirmed_paths += 1
             yield ctx, res
+            now = time.time()
+            if self.flush is not None and now - self._last_flush > 10:
+                self._last_flush = now
+                try:
+                    self.flush(self._partial(st))
+                except Exception:
+                    pass
+            if self.soft_deadline is not None and now > self.soft_deadline and not st.exhausted:
+                self.inconclusive.append(f"time budget of the instance reached after {st.paths} paths: exploration stopped (not exhaustive)")
+                self.exhausted = False
+                break
         self.paths += st.paths
         self.completed += st.completed
         for k, v in st.aborted.items():
@@ -58,7 +72,7 @@ class InstanceReport:
         if self.unconfirmed_paths:
             self.inconclusive.append(f"{self.unconfirmed_paths} path condition(s) not confirmed satisfiable (solver unknown)")
             self.unconfirmed_paths = 0
-        if not st.exhausted:
+        if not st.exhausted and st.paths >= max_paths:
             self.inconclusive.append(f"path budget {max_paths} exhausted before all paths were visited")
 
     # ---- obligations
@@ -90,7 +104,12 @@ class InstanceReport:
             spec = None
             if witness is not None:
                 try:
-                    env = real_witness(ctx, [negated], model=m, samplers=samplers) if real else None
+                    env = None
+                    if real:
+                        cnt = self.__dict__.setdefault("_real_calls", {})
+                        cnt[key or label] = cnt.get(key or label, 0) + 1
+                        if cnt[key or label] <= 3:
+                            env = real_witness(ctx, [negated], model=m, samplers=samplers, tries=1500)
                     spec = witness(env if env is not None else m)
                     if real and spec is not None:
                         spec["real_witness"] = env is not None
@@ -134,6 +153,15 @@ class InstanceReport:
 
     def validation(self, spec):
         self.validations.append(spec)
+
+    def _partial(self, st):
+        d = self.result()
+        d["paths"] += st.paths
+        d["completed"] += st.completed
+        d["decisions"] += st.decisions
+        d["branch_checks"] += st.branch_checks
+        d["partial"] = True
+        return d
 
     def result(self):
         return {
